@@ -56,6 +56,7 @@ class Ctx:
         self.usize_bits = usize_bits
         self.side = []      # list of Lin meaning expr <= 0
         self.eqs = []       # list of Lin meaning expr == 0
+        self.neqs = []      # list of Lin meaning expr != 0
         self.seen = set()
 
     def rng(self, t, lo, hi):
@@ -174,6 +175,8 @@ class Ctx:
                 self.side.append(d.scale(-1))
             elif o == "eq":
                 self.eqs.append(d)
+            elif o == "ne":
+                self.neqs.append(d)
             return
         if op == "range_ok" and v == 1:
             lo, hi, n = (self.lin(x) for x in t.args)
@@ -200,6 +203,24 @@ class Ctx:
         for e in self.eqs:
             out.append(e)
             out.append(e.scale(-1))
+        # integer disequalities: d != 0 with d >= 0 entailed gives d >= 1 (and symmetrically); iterate to a fixpoint
+        pending = list(self.neqs)
+        changed = True
+        while changed and pending:
+            changed = False
+            for d in list(pending):
+                if infeasible(out + [Lin(1).add(d.scale(-1), -1)]) if False else False:
+                    pass
+                # d >= 0 entailed?  (negation d <= -1 infeasible)
+                if infeasible(out + [d.add(Lin(1))]):
+                    out.append(Lin(1).add(d, -1))        # 1 - d <= 0
+                    pending.remove(d)
+                    changed = True
+                elif infeasible(out + [d.scale(-1).add(Lin(1))]):   # d <= 0 entailed
+                    out.append(d.add(Lin(1)))            # d + 1 <= 0
+                    pending.remove(d)
+                    changed = True
+        self.open_neqs = pending
         return out
 
 
@@ -260,6 +281,17 @@ def entails(ctx, goal_le):
     """does the context entail goal_le <= 0 ?   (negation: goal_le >= 1 over integers, i.e. 1 - goal_le <= 0)"""
     cons = ctx.constraints() + [Lin(1).add(goal_le, -1)]
     return infeasible(cons)
+
+
+def inconsistent(ctx):
+    """is the fact set itself infeasible (including a disequality whose equality is entailed)?"""
+    cons = ctx.constraints()
+    if infeasible(cons):
+        return True
+    for d in getattr(ctx, "open_neqs", []):
+        if infeasible(cons + [Lin(1).add(d, -1)]) and infeasible(cons + [d.add(Lin(1))]):
+            return True      # d == 0 entailed but d != 0 required
+    return False
 
 
 def same_value(ctx, a, b):
